@@ -794,6 +794,19 @@ class Interp(object):
                                 return T.mk("opaque", (x, y), w)
                             return T.binop(op, x, y, w)
                         frame[dest] = self.elementwise(ty, mu, av, bv)
+                    elif isinstance(av, Ptr) or isinstance(bv, Ptr):
+                        # integer arithmetic on a pointer value ((uintptr_t) p + n): stays a pointer into the same object
+                        if op == "add":
+                            pp, ii = (av, bv) if isinstance(av, Ptr) else (bv, av)
+                            if isinstance(ii, Ptr):
+                                raise Unsupported("pointer + pointer at %s" % fn.name)
+                            frame[dest] = Ptr(pp.obj, self._addoff(pp.off, ii, 1))
+                        elif op == "sub" and isinstance(av, Ptr) and not isinstance(bv, Ptr):
+                            frame[dest] = Ptr(av.obj, self._addoff(av.off, T.binop("sub", 0, bv, 64), 1))
+                        elif op == "sub" and isinstance(av, Ptr) and isinstance(bv, Ptr) and av.obj == bv.obj:
+                            frame[dest] = T.binop("sub", av.off, bv.off, 64)
+                        else:
+                            raise Unsupported("integer %s on pointer values in %s" % (op, fn.name))
                     else:
                         frame[dest] = self.elementwise(ty, lambda x, y: T.binop(op, x, y, w), av, bv)
                 elif k == "load":
@@ -1005,17 +1018,17 @@ class Interp(object):
         if k == "vec":
             es = self.mod.size_align(rty.b)[0]
             el = self.mod.resolve(rty.b)
-            return [self.load_typed(Ptr(p.obj, p.off + i * es), el, where) for i in range(rty.a)]
+            return [self.load_typed(Ptr(p.obj, self._addoff(p.off, i * es, 1)), el, where) for i in range(rty.a)]
         if k in ("struct", "arr"):
             out = []
             if k == "arr":
                 es = self.mod.size_align(rty.b)[0]
                 for i in range(rty.a):
-                    out.append(self.load_typed(Ptr(p.obj, p.off + i * es), self.mod.resolve(rty.b), where))
+                    out.append(self.load_typed(Ptr(p.obj, self._addoff(p.off, i * es, 1)), self.mod.resolve(rty.b), where))
             else:
                 for i, f in enumerate(rty.a):
                     off, _ = self.mod.field_offset(rty, i)
-                    out.append(self.load_typed(Ptr(p.obj, p.off + off), self.mod.resolve(f), where))
+                    out.append(self.load_typed(Ptr(p.obj, self._addoff(p.off, off, 1)), self.mod.resolve(f), where))
             return out
         raise Unsupported("load of %r" % (rty,))
 
@@ -1032,16 +1045,16 @@ class Interp(object):
             if isinstance(p.off, T.Term):
                 p = Ptr(p.obj, self.observe(p.off, "address", where))
             for i in range(rty.a):
-                self.store_typed(Ptr(p.obj, p.off + i * es), el, v[i], where)
+                self.store_typed(Ptr(p.obj, self._addoff(p.off, i * es, 1)), el, v[i], where)
         elif k in ("struct", "arr"):
             if k == "arr":
                 es = self.mod.size_align(rty.b)[0]
                 for i in range(rty.a):
-                    self.store_typed(Ptr(p.obj, p.off + i * es), self.mod.resolve(rty.b), v[i], where)
+                    self.store_typed(Ptr(p.obj, self._addoff(p.off, i * es, 1)), self.mod.resolve(rty.b), v[i], where)
             else:
                 for i, f in enumerate(rty.a):
                     off, _ = self.mod.field_offset(rty, i)
-                    self.store_typed(Ptr(p.obj, p.off + off), self.mod.resolve(f), v[i], where)
+                    self.store_typed(Ptr(p.obj, self._addoff(p.off, off, 1)), self.mod.resolve(f), v[i], where)
         else:
             raise Unsupported("store of %r" % (rty,))
 
